@@ -53,5 +53,41 @@ SEM = Family(
 )
 
 
+LOPS = '{"acq", "acqf", "nowait", "rel", "relf", "set", "yield"}'
+
+
+def lconsts(nt, maxops, maxenv, total0, totals, ops=LOPS):
+    return {"NT": str(nt), "INF": "99", "Ops": ops, "MaxOps": str(maxops), "MaxEnv": str(maxenv),
+            "EnvKinds": ENV, "Total0": str(total0), "Totals": totals}
+
+
+def cmp_lim(model: dict, real: dict) -> list[str]:
+    return [f"{k}: model={model.get(k)} real={real.get(k)}"
+            for k in ("borrowed", "total", "waiting", "nh", "out", "nc") if model.get(k) != real.get(k)]
+
+
+LIM = Family(
+    prop="C10", mc_module="MC_C10L", t_module="T_Limiter", fam_module="harness.fam_limiter",
+    invariants=["PropertyHolds", "TypeOK", "NoWaiterWhenTokenFree", "QueueEntriesLive",
+                "NoDuplicateBorrowersQueued", "Residue"],
+    nt_of=lambda c: int(c["NT"]), compare_final=cmp_lim,
+    configs=[
+        ModelCfg("l-n2o2e1-t1", lconsts(2, 2, 1, 1, "{0, 2}"), emit=True, check=False,
+                 replay_kw={"total": 1}),
+        ModelCfg("l-n2o3e1-t1", lconsts(2, 3, 1, 1, "{0, 1}", ops='{"acq", "rel", "set", "nowait"}'),
+                 emit=True, check=False, replay_kw={"total": 1}, max_scenarios=4000),
+        ModelCfg("l-n3o2e1-t2", lconsts(3, 2, 1, 2, "{0, 1, 3}", ops='{"acq", "acqf", "rel", "set"}'),
+                 tiers=("quick",), simulate=1500, replay_kw={"total": 2}),
+        ModelCfg("l-n3o3e2-t1", lconsts(3, 3, 2, 1, "{0, 2, 99}"), tiers=("thorough",), check=False,
+                 simulate=8000, replay_kw={"total": 1}),
+        ModelCfg("l-n3o3e1-t2x", lconsts(3, 3, 1, 2, "{0, 1, 3}", ops='{"acq", "rel", "set"}'),
+                 tiers=("thorough",), simulate=6000, replay_kw={"total": 2}),
+        ModelCfg("l-n4o2e2-t2", lconsts(4, 2, 2, 2, "{0, 1, 3}"), tiers=("thorough",), check=False,
+                 simulate=8000, replay_kw={"total": 2}),
+    ],
+    assumptions=SEM.assumptions,
+)
+
+
 def main(tier: str, seed: int) -> int:
-    return run_parts("C10", [SEM], tier, seed)
+    return run_parts("C10", [SEM, LIM], tier, seed)
